@@ -9,7 +9,9 @@ import (
 	"net/http"
 	"net/http/httptest"
 	"os"
+	"path/filepath"
 	"strings"
+	"sync"
 	"time"
 
 	"verif/vlib"
@@ -215,8 +217,156 @@ func classify(outcome string) string {
 	return "other"
 }
 
+// ---------- free-running pass (built with -race, code under test not rewritten) ----------
+
+type safeRW struct {
+	mu  sync.Mutex
+	h   http.Header
+	buf strings.Builder
+}
+
+func (w *safeRW) Header() http.Header { return w.h }
+func (w *safeRW) WriteHeader(int)     {}
+func (w *safeRW) Flush()              {}
+func (w *safeRW) Write(p []byte) (int, error) {
+	w.mu.Lock()
+	defer w.mu.Unlock()
+	w.buf.Write(p)
+	return len(p), nil
+}
+func (w *safeRW) count(s string) int {
+	w.mu.Lock()
+	defer w.mu.Unlock()
+	return strings.Count(w.buf.String(), s)
+}
+
+// raceMode: stable clients, clients that keep connecting and leaving, and back-to-back broadcasts on real
+// goroutines. Only the race detector's verdict (and a crash of the process) is used from this pass.
+func raceMode() {
+	const stable, churners, sends = 4, 4, 1500
+	h := sse.New()
+	var wg sync.WaitGroup
+	serve := func(ctx context.Context) *safeRW {
+		w := &safeRW{h: http.Header{}}
+		wg.Add(1)
+		go func() {
+			defer wg.Done()
+			h.ServeHTTP(w, httptest.NewRequest(http.MethodGet, "/", nil).WithContext(ctx))
+		}()
+		return w
+	}
+	waitPing := func(w *safeRW) {
+		for w.count("data: ping") < 1 {
+			time.Sleep(50 * time.Microsecond)
+		}
+	}
+	ctxAll, cancelAll := context.WithCancel(context.Background())
+	var ws []*safeRW
+	for i := 0; i < stable; i++ {
+		ws = append(ws, serve(ctxAll))
+	}
+	for _, w := range ws {
+		waitPing(w)
+	}
+	stop := make(chan struct{})
+	var churnWG sync.WaitGroup
+	churned := make([]int, churners)
+	for c := 0; c < churners; c++ {
+		c := c
+		churnWG.Add(1)
+		go func() {
+			defer churnWG.Done()
+			for {
+				select {
+				case <-stop:
+					return
+				default:
+				}
+				ctx, cancel := context.WithCancel(context.Background())
+				w := serve(ctx)
+				waitPing(w)
+				cancel()
+				churned[c]++
+			}
+		}()
+	}
+	for k := 0; k < sends; k++ {
+		h.Send("message", "reload")
+		if k%8 == 0 {
+			time.Sleep(100 * time.Microsecond) // lets clients come and go between broadcasts; not an oracle
+		}
+	}
+	close(stop)
+	churnWG.Wait()
+	// deliveries are made by goroutines Send leaves behind: give them time, report what arrived
+	deadline := time.Now().Add(20 * time.Second)
+	complete := func() bool {
+		for _, w := range ws {
+			if w.count("data: reload") < sends {
+				return false
+			}
+		}
+		return true
+	}
+	for !complete() && time.Now().Before(deadline) {
+		time.Sleep(time.Millisecond)
+	}
+	all := complete()
+	cancelAll()
+	wg.Wait()
+	total := 0
+	for _, n := range churned {
+		total += n
+	}
+	b, _ := json.Marshal(map[string]any{"stable_clients": stable, "churning_goroutines": churners, "broadcasts": sends, "connect_disconnect_cycles": total, "stable_clients_received_everything": all})
+	os.WriteFile(filepath.Join(os.Getenv("VERIF_SCRATCH"), "race.json"), b, 0o644)
+}
+
+// racePassResult turns what the race-detector pass left in the scratch directory into violations and coverage.
+func racePassResult(run *vlib.Run) {
+	scratch := os.Getenv("VERIF_SCRATCH")
+	ex, err := os.ReadFile(filepath.Join(scratch, "race.exit"))
+	if err != nil {
+		return // replay of a single schedule: no race pass
+	}
+	stderr, _ := os.ReadFile(filepath.Join(scratch, "race.stderr"))
+	var r map[string]any
+	if b, err := os.ReadFile(filepath.Join(scratch, "race.json")); err == nil {
+		json.Unmarshal(b, &r)
+	}
+	code := strings.TrimSpace(string(ex))
+	reports := strings.Count(string(stderr), "WARNING: DATA RACE")
+	switch {
+	case reports > 0:
+		run.Violation("data-race", "the race detector reported a data race between broadcasts and clients connecting/leaving: "+firstLines(string(stderr), 30), map[string]any{"report": firstLines(string(stderr), 90)})
+	case strings.Contains(string(stderr), "fatal error:"):
+		run.Violation("crash-free-running", "the free-running pass crashed: "+firstLines(string(stderr[strings.Index(string(stderr), "fatal error:"):]), 12), map[string]any{"report": firstLines(string(stderr), 60)})
+	case r == nil || (code != "0" && code != "66"):
+		fmt.Fprintln(os.Stderr, string(stderr))
+		vlib.Fatal("race pass failed (exit %s)", code)
+	}
+	if r == nil {
+		r = map[string]any{}
+	}
+	r["race_detector_reports"] = reports
+	run.Cov["race_pass"] = r
+}
+
+func firstLines(s string, n int) string {
+	l := strings.Split(s, "\n")
+	if len(l) > n {
+		l = l[:n]
+	}
+	return strings.Join(l, "\n")
+}
+
 func main() {
+	if len(os.Args) > 1 && os.Args[len(os.Args)-1] == "race" {
+		raceMode()
+		return
+	}
 	run := vlib.Start("C19", "model_checking")
+	racePassResult(run)
 	bound := run.Pick(2, 3)
 	scenarios := []scenario{
 		{name: "2 clients, 1 broadcast, client0 disconnects concurrently", clients: 2, sends: 1, cancel: 1},
